@@ -21,7 +21,8 @@ RULE = ("Hypothesis-generated scenarios (1-3 chromosomes, overlapping genes, GTF
         "into 2-4 BAMs. Non-trivial = representation differs in >= 1 dimension and the annotation has >= 2 "
         "overlapping genes or the partition splits reads of one gene; distinct by scenario hash. Stage history: 3-6 "
         "runs sharing one HOME over two annotations of the same file name (B = A minus a transcript or gene), two "
-        "reused output folders, in-place swaps of the annotation files, --clean_start, .gtf/.gtf.gz; each run is "
+        "reused output folders, in-place swaps of the annotation files (half of them keep a time stamp earlier "
+        "than the cached database), --clean_start, .gtf/.gtf.gz; each run is "
         "compared with a fresh-HOME run of the same content; non-trivial = some (file, form) is used twice without "
         "--clean_start and the two annotations give different outputs.")
 ASSUMPTIONS = ["BAM partition: only read_assignments, corrected_reads and the ungrouped reference-based tables are "
@@ -330,7 +331,7 @@ def history_scenarios(draw):
     for _ in range(src.int(3, 6)):
         steps.append({"slot": src.choice(["v1", "v2"]), "out": src.choice(["X", "X", "X", "Y"]),
                       "clean": src.bool(0.1), "form": src.choice(["gtf", "gtf", "gtf", "gtf.gz"]),
-                      "complete": src.bool(0.85), "swap": src.bool(0.15)})
+                      "complete": src.bool(0.85), "swap": src.bool(0.2), "old": src.bool(0.5)})
     sc["steps"] = steps
     return sc
 
@@ -362,13 +363,22 @@ def evaluate_history(case, ctx):
         text["B"] = open(tmpb).read()
         slots = {"v1": "A", "v2": "B"}
 
-        def write_slot(slot):
+        stamp = [0]
+
+        def write_slot(slot, old=False):
             sd = os.path.join(d, "in", slot)
             os.makedirs(sd, exist_ok=True)
             with open(os.path.join(sd, "annot.gtf"), "w") as f:
                 f.write(text[slots[slot]])
             with gzip.open(os.path.join(sd, "annot.gtf.gz"), "wt") as f:
                 f.write(text[slots[slot]])
+            if old:
+                # the file that replaces the annotation keeps an earlier time stamp (cp -p, rsync -t, an earlier
+                # release moved into place); every replacement gets a time stamp of its own
+                stamp[0] += 1
+                for name in ("annot.gtf", "annot.gtf.gz"):
+                    t = 1500000000 + 1000 * stamp[0]
+                    os.utime(os.path.join(sd, name), (t, t))
         for sl in slots:
             write_slot(sl)
         common = ["--reference", paths["fasta"], "--bam"] + paths["bams"] + list(sc["opts"])
@@ -393,7 +403,7 @@ def evaluate_history(case, ctx):
             if st_["swap"]:
                 slots["v1"], slots["v2"] = slots["v2"], slots["v1"]
                 for sl in slots:
-                    write_slot(sl)
+                    write_slot(sl, old=st_.get("old", False))
             content = slots[st_["slot"]]
             genedb = os.path.join(d, "in", st_["slot"], "annot." + st_["form"])
             out = os.path.join(d, "out" + st_["out"])
@@ -421,7 +431,8 @@ def evaluate_history(case, ctx):
                     f, ":equals-the-other-annotation" if same_as_other and distinguishable else ""),
                     {"step": i, "steps": sc["steps"][:i + 1], "content": content, "kind": kind, "file": f,
                      "detail": det}, case)
-        ctx.cls("steps=%d" % len(sc["steps"]), "swap" if any(x["swap"] for x in sc["steps"]) else "no-swap")
+        ctx.cls("steps=%d" % len(sc["steps"]), "swap" if any(x["swap"] for x in sc["steps"]) else "no-swap",
+                "swap-to-older-file" if any(x["swap"] and x.get("old") for x in sc["steps"]) else "no-older-swap")
         if distinguishable and stale_possible:
             ctx.mark_nontrivial(case_hash(case))
             ctx.sample({"steps": sc["steps"], "drop": sc["drop"], "n_genes": len(sc["genes"])}, limit=2)
